@@ -128,6 +128,7 @@ O_null == <<110,117,108,108>>  O_exists == <<101,120,105,115,116,115>>  O_nexist
 O_lt == <<108,116>> O_lte == <<108,116,101>> O_gt == <<103,116>> O_gte == <<103,116,101>>
 O_fref == <<102,114,101,102>>  O_frefsw == <<102,114,101,102,115,119>>
 O_frefew == <<102,114,101,102,101,119>>  O_frefct == <<102,114,101,102,99,116>>
+O_lookup == <<108,111,111,107,117,112>>
 O_in == <<105,110>>            O_allof == <<97,108,108,111,102>>
 W_true == <<116,114,117,101>>  W_false == <<102,97,108,115,101>>
 W_AND == <<65,78,68>> W_OR == <<79,82>> W_NOT == <<78,79,84>> W_KW == <<75,87>>
@@ -171,6 +172,9 @@ AtomTail(t, i, f, u, o, rawfield) ==
     ELSE IF o \in {O_cidr, O_ncidr} THEN
         LET s == LexStr(t, i) IN
         IF s.ok THEN Res(s.i, Neg(o, QLeaf(mark(MkAtom(f, "cidr", s.v, <<>>))))) ELSE FAIL
+    ELSE IF o = O_lookup THEN          \* query expression inserted by a placeholder transformation
+        LET s == LexStr(t, i) IN
+        IF s.ok THEN Res(s.i, QLeaf(mark(MkAtom(f, "qx", s.v, <<>>)))) ELSE FAIL
     ELSE IF o \in {O_lt, O_lte, O_gt, O_gte} THEN
         LET n == LexNum(t, i) IN
         IF n.ok THEN Res(n.i, QLeaf(mark(MkAtom(f, "cmp", n.v, o \o <<47>> \o u)))) ELSE FAIL
